@@ -68,6 +68,13 @@ theorem ordinary_of_wfE : ∀ (e : Expr), wfE e → (kindOf e).ordinary = true :
   intro e h
   cases e <;> first | rfl | (simp [wfE] at h)
 
+theorem specNoBrace_eq : ∀ vs, specNoBrace vs = specLitsNoBrace vs
+  | [] => rfl
+  | e :: vs => by
+      cases e with
+      | const c => cases c <;> simp [specNoBrace, specLitsNoBrace, specNoBrace_eq vs]
+      | _ => simp [specNoBrace, specLitsNoBrace, specNoBrace_eq vs]
+
 theorem strReads_escape (q : Quote) (cps : List Nat) (h : ∀ c ∈ cps, c < 0x110000) : StrReads q (escape q cps) cps :=
   ⟨cps.length + 1, by simpa using C04.escape_roundtrip q cps [] h⟩
 
@@ -379,7 +386,7 @@ mutual
         | joinedStr vs =>
           simp only [wfSpec] at h
           simp only [unparseSpec]
-          exact DSpec.some (unparseJoined_D q vs h)
+          exact DSpec.some (unparseJoined_D q vs h.1) (by rw [← specNoBrace_eq]; exact h.2)
         | _ => simp [wfSpec] at h
 
   theorem unparseDictItems_D (oq : Quote) : ∀ its, wfItems its → DItems (unparseDictItems oq its) its
